@@ -147,8 +147,8 @@ Definition base_rows : list row :=
     ("bpl", FBranch, o6 1 0 0 0 0 0); ("bmi", FBranch, o6 1 0 0 4 0 0); ("bhi", FBranch, o6 1 0 1 0 0 0);
     ("blos", FBranch, o6 1 0 1 4 0 0); ("bvc", FBranch, o6 1 0 2 0 0 0); ("bvs", FBranch, o6 1 0 2 4 0 0);
     ("bhis", FBranch, o6 1 0 3 0 0 0); ("blo", FBranch, o6 1 0 3 4 0 0);
-    (* neg_ok = true follows pdpy11's pattern letters: emt/trap use the "signed" field letter i (-2^8 < v < 2^8, stored
-       mod 2^8), spl/mark/xfc the unsigned letter I; this convention is taken from the code and disclosed in ASSUME *)
+    (* neg_ok = true follows pdpy11's pattern letters: emt/trap carry the "signed" field letter i (-2^8 < v < 2^8,
+       stored mod 2^8), spl/mark/xfc the unsigned letter I; the convention is the code's, disclosed in ASSUME *)
     ("emt", FNum 8 true, o6 1 0 4 0 0 0); ("trap", FNum 8 true, o6 1 0 4 4 0 0);
     ("clrb", FDst, o6 1 0 5 0 0 0); ("comb", FDst, o6 1 0 5 1 0 0); ("incb", FDst, o6 1 0 5 2 0 0);
     ("decb", FDst, o6 1 0 5 3 0 0); ("negb", FDst, o6 1 0 5 4 0 0); ("adcb", FDst, o6 1 0 5 5 0 0);
@@ -276,9 +276,10 @@ Inductive operand : Type :=
 | OAbs (a : Z)                    (* @#a *)
 | ORel (t : Z)                    (* bare expression with value t: relative operand, branch target, inline number *)
 | ORelDef (t : Z)                 (* @t *)
-| OAcc (n : Z) (sym : option Z).  (* the token acN.  sym = value of a user symbol of that name, if one is defined:
-                                     acN is an accumulator only where a floating operand or accumulator is expected
-                                     (there it shadows the symbol); anywhere else it is that ordinary symbol *)
+| OAcc (n : Z).                   (* the token acN where a floating operand / accumulator is expected, or where no user
+                                     symbol of that name is defined.  A *defined* symbol that happens to be named acN and
+                                     is written where a general operand, branch target or inline number is expected is an
+                                     ordinary expression (ORel value): the mapping is [token_acc] below *)
 
 (* operand classes of the formats *)
 Inductive okind : Type :=
@@ -302,6 +303,16 @@ Definition kinds_of (f : format) : list okind :=
   | FFpAcDst => [CAcc; CFpRM]
   | FAcDst => [CAcc; CRM]
   | FSrcAc => [CRM; CAcc]
+  end.
+
+(* what the token acN denotes in an operand position of class c, given the value [sym] of a user
+   symbol of that name if one is defined: an accumulator only where a floating operand or an
+   accumulator is expected (there it shadows the symbol); everywhere else the ordinary symbol --
+   a bare expression when defined, an undefined name (refused) when not *)
+Definition token_acc (c : okind) (n : Z) (sym : option Z) : operand :=
+  match c with
+  | CFpRM | CAcc => OAcc n
+  | _ => match sym with Some t => ORel t | None => OAcc n end
   end.
 
 Definition sem_reg (r : Z) : option Z := if (0 <=? r) && (r <? 8) then Some r else None.
@@ -338,22 +349,7 @@ Definition sem_rm (o : operand) (addr k : Z) : option soperand :=
   | OAbs a => omap SAbs (val16 a)
   | ORel t => Some (SRel (wrap16 t))
   | ORelDef t => Some (SRelDef (wrap16 t))
-  | OAcc _ sym => omap (fun t => SRel (wrap16 t)) sym      (* ordinary symbol: relative operand, refused if undefined *)
-  end.
-
-(* the value of an operand that is a bare expression (a defined symbol named acN included) *)
-Definition plain_value (o : operand) : option Z :=
-  match o with
-  | ORel t => Some t
-  | OAcc _ (Some t) => Some t
-  | _ => None
-  end.
-
-(* ... where an inline number is expected a redundant hash is tolerated ("emt #3") *)
-Definition num_value (o : operand) : option Z :=
-  match o with
-  | OImm v => Some v
-  | _ => plain_value o
+  | OAcc _ => None
   end.
 
 Definition sem_operand (c : okind) (o : operand) (addr k : Z) : option soperand :=
@@ -362,26 +358,30 @@ Definition sem_operand (c : okind) (o : operand) (addr k : Z) : option soperand 
   | CRM => sem_rm o addr k
   | CFpRM =>
       match o with
-      | OAcc n _ => if (0 <=? n) && (n <=? 5) then Some (SAcc n) else None
+      | OAcc n => if (0 <=? n) && (n <=? 5) then Some (SAcc n) else None
       | OReg r => obind (sem_reg r) (fun r => if r <=? 5 then Some (SAcc r) else None)
       | _ => sem_rm o addr k
       end
-  | CAcc => match o with OAcc n _ => if (0 <=? n) && (n <=? 3) then Some (SAcc n) else None | _ => None end
+  | CAcc => match o with OAcc n => if (0 <=? n) && (n <=? 3) then Some (SAcc n) else None | _ => None end
   | CBr =>
-      match plain_value o with
-      | Some t => let d := t - (addr + 2 * k + 2) in
+      match o with
+      | ORel t => let d := t - (addr + 2 * k + 2) in
                   if Z.even d && (-256 <=? d) && (d <=? 254) then Some (STarget (wrap16 t)) else None
-      | None => None
+      | _ => None
       end
   | CSob =>
-      match plain_value o with
-      | Some t => let d := t - (addr + 2 * k + 2) in
+      match o with
+      | ORel t => let d := t - (addr + 2 * k + 2) in
                   if Z.even d && (-126 <=? d) && (d <=? 0) then Some (STarget (wrap16 t)) else None
-      | None => None
+      | _ => None
       end
   | CNum b neg_ok =>
       let num v := if ((if neg_ok then - 2 ^ b <? v else 0 <=? v)) && (v <? 2 ^ b) then Some (SNum (v mod 2 ^ b)) else None in
-      match num_value o with Some v => num v | None => None end
+      match o with
+      | ORel v => num v
+      | OImm v => num v      (* "emt #3": accepted, the hash is redundant *)
+      | _ => None
+      end
   end.
 
 Fixpoint sem_operands (cs : list okind) (os : list operand) (addr k : Z) : option (list soperand) :=
